@@ -461,14 +461,25 @@ def histogram(cases, impl):
             h["sys_cases"] += 1
         else:
             h["unit_cases"] += 1
-        ranks = []
+        order, last, used = {}, {}, set()
         for l in lines:
             t = l.split()
             if not t:
                 continue
             if t[0] == "begin":
                 h["reloads"] += 1
+                order, used = {}, set()
+            elif t[0] == "end":
+                for tag, names in order.items():
+                    if tag + ".c" in used and tag in last and last[tag] != names and sorted(last[tag]) == sorted(names):
+                        h["permuted_reloads"] += 1
+                    last[tag] = names
+            elif t[0] == "D" and t[2] == "cf":
+                order.setdefault(t[1], []).append(t[4])
+                continue
             elif t[0] == "lb":
+                if t[2] == "use":
+                    used.add(t[1])
                 h["binary_used" if t[2] == "use" else "stale" if t[2] == "stale" else "needs_inherit"] += 1
             elif t[0] == "sv":
                 h["saves"] += 1
